@@ -25,7 +25,8 @@ type tierPlan struct {
 
 var plans = map[string]map[string]tierPlan{
 	"default": {"quick": {24000, 240}, "thorough": {600000, 2400}},
-	"C08":     {"quick": {8000, 240}, "thorough": {200000, 2400}},
+	"C08":     {"quick": {6000, 240}, "thorough": {200000, 2400}},
+	"C08m3":   {"quick": {1600, 240}, "thorough": {80000, 2400}},
 	"C10":     {"quick": {6000, 240}, "thorough": {150000, 2400}},
 	"C19":     {"quick": {10000, 240}, "thorough": {300000, 2400}},
 }
@@ -105,6 +106,7 @@ func cmdCheck(args []string) int {
 		knownLines[fmt.Sprintf("KNOWN-FINDING: property=%s %s [%s]", k.Property, k.What, k.Fingerprint)] = true
 	}
 
+	var notes []string
 	merged := &WorkerResult{Faults: map[string]int{}, Probes: map[string]int{}, KnownSeen: map[string]int{}, OtherProps: map[string]int{}, Extra: map[string]int{}}
 	sigs := map[string]bool{}
 	type cand struct {
@@ -117,6 +119,12 @@ func cmdCheck(args []string) int {
 	failedWorkers := 0
 
 	for _, profile := range profiles {
+		if profile == "C08m3" && instBin() == "" {
+			notes = append(notes, "GFSIM_INST_BIN not set: the controlled map-order mode (M3) was not run")
+			fmt.Fprintln(os.Stderr, "GFSIM_INST_BIN not set: C08 mode M3 needs the instrumented build (use check.sh): cannot decide")
+			failedWorkers++
+			continue
+		}
 		plan := planFor(profile, *tier)
 		if *runsOverride > 0 {
 			plan.Runs = *runsOverride
@@ -136,7 +144,11 @@ func cmdCheck(args []string) int {
 				if *tier == "thorough" {
 					budget = 120
 				}
-				cmd := exec.Command(self, "worker", "--prop", profile, "--tier", *tier, "--seed", fmt.Sprint(seed),
+				exe := self
+				if profile == "C08m3" {
+					exe = instBin()
+				}
+				cmd := exec.Command(exe, "worker", "--prop", profile, "--tier", *tier, "--seed", fmt.Sprint(seed),
 					"--from", fmt.Sprint(k), "--to", fmt.Sprint(share), "--stride", fmt.Sprint(nw), "--out", out,
 					"--deadline", fmt.Sprint(deadline), "--hang-budget", fmt.Sprint(budget))
 				cmd.Env = append(os.Environ(), "VERIF_DIR="+verifDir(), "GOMAXPROCS=2", "GFSIM_C08_LOGDIR="+tmp)
@@ -199,7 +211,6 @@ func cmdCheck(args []string) int {
 
 	exit := 0
 	violations := 0
-	var notes []string
 
 	if baseProp(*prop) == "C08" {
 		for _, c := range c08CrossProcess(self, tmp, *tier, seed, merged) {
@@ -256,10 +267,11 @@ func cmdCheck(args []string) int {
 		var hit *world.Violation
 		var r *world.RunResult
 		replays := 0
-		if c.Tape == nil {
-			// not tape-minimisable (process-level finding): the replay file carries the history
+		if c.Tape == nil || c.profile == "C08m3" {
+			// not minimisable by this (plain) build: process-level findings carry their history in the
+			// replay file; controlled-order findings are confirmed by the instrumented build's replay
 			hit = &world.Violation{Prop: c.Prop, Oracle: c.Oracle, Fingerprint: c.Fingerprint, Msg: c.Msg}
-			r = &world.RunResult{}
+			r = &world.RunResult{Tape: c.Tape}
 		} else {
 			var custom func(vals []uint64) (bool, *world.RunResult)
 			if mk := specialFails[c.profile]; mk != nil {
@@ -298,7 +310,7 @@ func cmdCheck(args []string) int {
 		}
 		rf := &ReplayFile{Property: hit.Prop, Check: c.profile, Oracle: hit.Oracle, Fingerprint: hit.Fingerprint, Message: hit.Msg, Seed: c.Seed, Variant: c.Variant,
 			Tape: r.Tape, Labels: r.Labels, LogDigest: r.LogDigest, Trace: r.Describe(0), FoundAtRun: c.RunIndex, BaseSeed: seed, Tier: *tier, OrigTapeLen: len(c.Tape), Replays: replays, Special: c.Special}
-		if specialFails[c.profile] != nil {
+		if specialFails[c.profile] != nil || c.profile == "C08m3" {
 			rf.LogDigest = "" // the outputs differ between executions by the nature of the finding
 		}
 		path := writeReplay(rf)
@@ -375,6 +387,10 @@ func clipS(s string, n int) string {
 
 // checkProfiles lists the world configurations a property check runs.
 func checkProfiles(prop string) []string {
+	if prop == "C08" {
+		// M1/M2/M4 on the tree as it is, then M3 on the instrumented scratch copy
+		return []string{"C08", "C08m3"}
+	}
 	return []string{prop}
 }
 
@@ -422,6 +438,23 @@ func cmdReplay(args []string) int {
 	})
 	if fn := specialReplays[rf.Check]; fn != nil {
 		return fn(rf, fs.Arg(0), *quiet)
+	}
+	if rf.Check == "C08m3" {
+		// only the build from the instrumented copy can replay a controlled-order finding
+		if instBin() == "" {
+			fmt.Println("GFSIM_INST_BIN not set (use replay.sh)")
+			return 2
+		}
+		cmd := exec.Command(instBin(), append([]string{"replay"}, args...)...)
+		cmd.Stdout, cmd.Stderr = os.Stdout, os.Stderr
+		cmd.Env = append(os.Environ(), "VERIF_DIR="+verifDir())
+		if err := cmd.Run(); err != nil {
+			if ee, ok := err.(*exec.ExitError); ok {
+				return ee.ExitCode()
+			}
+			return 2
+		}
+		return 0
 	}
 	var vals []uint64
 	if rf.Tape != nil {
